@@ -249,7 +249,25 @@ def L(l):
     return _mlang(l)
 
 
+def direct_shared_instance(a):
+    """One auto-detecting decoder / validator object used for a sequence of sentences in different
+    languages must give, for each, what a fresh object gives (results depend on arguments only)."""
+    seq = a[0]      # list of [lang index, entropy]
+    dec, val = Bip39MnemonicDecoder(), Bip39MnemonicValidator()
+    for li, ent in seq:
+        sent = Bip39MnemonicEncoder(LANGS[li]).Encode(ent).ToStr()
+        fresh = _outcome(lambda: Bip39MnemonicDecoder().Decode(sent))
+        shared = _outcome(lambda: dec.Decode(sent))
+        if fresh != shared:
+            return "reused auto-detect decoder: %s sentence decodes to %s, a fresh decoder gives %s" % (
+                NAMES[li], str(shared)[:60], str(fresh)[:60])
+        if val.IsValid(sent) != Bip39MnemonicValidator().IsValid(sent):
+            return "reused auto-detect validator disagrees with a fresh one on a %s sentence" % NAMES[li]
+    return None
+
+
 FUNCS = {
+    "shared_instance": Func(direct=direct_shared_instance),
     "bip39_encode": Func(model=lambda m, a: m.call("bip39_encode", a[0], a[1]), impl=impl_encode, direct=direct_encode),
     "bip39_from_entropy": Func(model=lambda m, a: m.call("bip39_encode", a[0], a[1]), impl=impl_from_entropy,
                                direct=lambda a: direct_encode(a, impl_from_entropy)),
@@ -394,6 +412,14 @@ def run_all_decoders(ctx, lang, s, tag):
 
 
 def generate(ctx):
+    # histories on one reused auto-detecting decoder/validator: every ordered pair of languages + random walks
+    for i in range(len(LANGS)):
+        for j in range(len(LANGS)):
+            if i != j:
+                ctx.run("shared_instance", [[[i, bytes(range(i, i + 16))], [j, bytes(range(j + 40, j + 56))]]], "pair")
+    for _ in range(ctx.n(10, 200)):
+        ctx.run("shared_instance", [[[ctx.rng.randrange(len(LANGS)), bytes(ctx.rng.randrange(256) for _ in range(ctx.rng.choice([16, 20, 24, 28, 32])))]
+                                     for _ in range(ctx.rng.randrange(2, 7))]], "walk")
     rng = ctx.rng
     for i in range(9):
         ctx.run("wordlist_normal_form", [i], "exhaustive-2048")
